@@ -34,6 +34,13 @@ type rule struct {
 	Types []uint16 `json:"-"` // $dnstype list (all permitted, or all negated when Neg)
 	Neg   bool     `json:"-"`
 	Val   string   `json:"-"`
+	// $client modifier (block / allow rules of the profile's custom rules only):
+	// device names, all permitted or all negated (ClientNeg); ClientFirst puts
+	// the client modifier before $dnstype, ClientQuote quotes the names.
+	Clients     []string `json:"-"`
+	ClientNeg   bool     `json:"-"`
+	ClientFirst bool     `json:"-"`
+	ClientQuote byte     `json:"-"`
 }
 
 func (ru rule) isRewrite() bool { return ru.Kind >= rkRwIP }
@@ -50,6 +57,7 @@ func (ru rule) text() string {
 	if ru.Kind == rkAllow {
 		s = "@@" + s
 	}
+	var mods []string
 	if len(ru.Types) > 0 {
 		var ts []string
 		for _, t := range ru.Types {
@@ -59,9 +67,50 @@ func (ru rule) text() string {
 			}
 			ts = append(ts, n)
 		}
-		s += "$dnstype=" + strings.Join(ts, "|")
+		mods = append(mods, "dnstype="+strings.Join(ts, "|"))
+	}
+	if len(ru.Clients) > 0 {
+		var cs []string
+		for _, c := range ru.Clients {
+			if ru.ClientQuote != 0 || strings.ContainsAny(c, " ,|") {
+				q := ru.ClientQuote
+				if q == 0 {
+					q = '\''
+				}
+				c = string(q) + c + string(q)
+			}
+			if ru.ClientNeg {
+				c = "~" + c
+			}
+			cs = append(cs, c)
+		}
+		m := "client=" + strings.Join(cs, "|")
+		if ru.ClientFirst {
+			mods = append([]string{m}, mods...)
+		} else {
+			mods = append(mods, m)
+		}
+	}
+	if len(mods) > 0 {
+		s += "$" + strings.Join(mods, ",")
 	}
 	return s
+}
+
+// clientMatches: $client=A|B restricts the rule to the devices with these
+// names, $client=~A excludes them; no modifier = every device.  Names are
+// compared exactly.
+func (ru rule) clientMatches(client string) bool {
+	if len(ru.Clients) == 0 {
+		return true
+	}
+	in := false
+	for _, c := range ru.Clients {
+		if c == client && client != "" {
+			in = true
+		}
+	}
+	return in != ru.ClientNeg
 }
 
 // nameMatches: "||d^" covers d and every subdomain of d; a hosts-style line
@@ -108,9 +157,9 @@ func (s *source) rewriteFor(host string) *rule {
 
 // has reports whether s holds a matching allow rule (allow=true) or a matching
 // block rule (network or hosts-style).
-func (s *source) has(allow bool, host string, qt uint16) (network, hosts bool) {
+func (s *source) has(allow bool, host string, qt uint16, client string) (network, hosts bool) {
 	for _, ru := range s.Rules {
-		if !ru.nameMatches(host) {
+		if !ru.nameMatches(host) || !ru.clientMatches(client) {
 			continue
 		}
 		switch {
@@ -198,9 +247,19 @@ func replVerdict(id, repl string, qt uint16) verdict {
 // view is everything of one configuration the evaluator needs.
 type view struct {
 	Filtering bool
-	Rules     []*source // custom first (if enabled), then the shared lists in configured order
-	Services  []*source
-	Safety    []*safety // enabled ones, in the stated order: danger, adult, ssgen, ssyt, newreg
+	// Client is the name of the requesting device; only the profile's own rules
+	// see it (shared lists and services are matched without a device name).
+	Client   string
+	Rules    []*source // custom first (if enabled), then the shared lists in configured order
+	Services []*source
+	Safety   []*safety // enabled ones, in the stated order: danger, adult, ssgen, ssyt, newreg
+}
+
+func (v *view) clientFor(s *source) string {
+	if s.Class == "custom" {
+		return v.Client
+	}
+	return ""
 }
 
 // evalRequest returns the acceptable verdicts for (host, qt) and the classes of
@@ -227,7 +286,7 @@ func evalRequest(v *view, host string, qt uint16) (alts []verdict, cands []strin
 	var allowCustom bool
 	var allowOther, blockIDs, blockSvcs []string
 	for _, s := range append(append([]*source{}, v.Rules...), v.Services...) {
-		if n, _ := s.has(true, host, qt); n {
+		if n, _ := s.has(true, host, qt, v.clientFor(s)); n {
 			cands = append(cands, s.Class+"-allow")
 			if s.Class == "custom" {
 				allowCustom = true
@@ -235,7 +294,7 @@ func evalRequest(v *view, host string, qt uint16) (alts []verdict, cands []strin
 				allowOther = append(allowOther, s.ID)
 			}
 		}
-		n, h := s.has(false, host, qt)
+		n, h := s.has(false, host, qt, v.clientFor(s))
 		if n {
 			cands = append(cands, s.Class+"-block")
 		}
@@ -312,11 +371,11 @@ func evalResponse(v *view, tgts []target) (alts []verdict, cands []string) {
 	for _, t := range tgts {
 		var a, b, bs []string
 		for _, s := range append(append([]*source{}, v.Rules...), v.Services...) {
-			if n, _ := s.has(true, t.Host, t.Type); n {
+			if n, _ := s.has(true, t.Host, t.Type, v.clientFor(s)); n {
 				a = append(a, s.ID)
 				cands = append(cands, "resp-allow")
 			}
-			if n, h := s.has(false, t.Host, t.Type); n || h {
+			if n, h := s.has(false, t.Host, t.Type, v.clientFor(s)); n || h {
 				b = append(b, s.ID)
 				cands = append(cands, "resp-block")
 				if s.Svc != "" {
